@@ -1203,11 +1203,11 @@ def layout(tokens, rng, mode="random", filename="f.c", directives=True):
                 emit(rng.choice(["", "", " ", "\t"]))
                 form = rng.randint(0, 3)
                 if form == 0:
-                    nf = rng.choice(["inc/a.h", "b.c", "dir/sub/c.h", ""])
+                    nf = rng.choice(["inc/a.h", "b.c", "dir/sub/c.h", "", "inc/my\\\"quoted\\\".h", "w\\\\in\\\\x.h"])
                     emit(f"# {nl} \"{nf}\"{rng.choice(['', ' 1', ' 2 3'])}\n")
                     cur_file = nf
                 elif form == 1:
-                    nf = rng.choice(["inc/a.h", "x y.c", ""])
+                    nf = rng.choice(["inc/a.h", "x y.c", "", "q\\\"uote.c"])
                     emit(f"#line {nl} \"{nf}\"\n")
                     cur_file = nf
                 elif form == 2:
